@@ -412,8 +412,11 @@ def jobs(tier, seed):
             sp["a"] = dict(sp["a"], extra=extra)
             jobs.append({"harness": "frame", "params": {"cfg": cfgf, "scaffold": free_doc(2, "\n"), "spec": sp, "name": "free", "shard": name},
                          "weight": 12, "cpu_cap": 2400, "wall_cap": 3600})
-    for sc in (["[a]: /u\n\n[a] ![i](x) ", {"v": "a"}, "\n"], ["> - ", {"v": "a"}, "\n\n```\nc\n```\n"], ["a|b\n-|-\n", {"v": "a"}, "|2\n"],
-               ["*", {"v": "a"}, "* &amp; <b> \\x\n"]):
+    ctxs = [["> - ", {"v": "a"}, "\n\n```\nc\n```\n"], ["a|b\n-|-\n", {"v": "a"}, "|2\n"],
+            ["*", {"v": "a"}, "* &amp; <b> \\x\n"]]
+    if tier == "thorough":
+        ctxs.append(["[a]: /u\n\nx [a] ![i](x) ", {"v": "a"}, "\n"])  # ~35 CPU-s per path
+    for sc in ctxs:
         jobs.append({"harness": "frame", "params": {"cfg": S.JS, "scaffold": sc, "spec": spec, "name": "ctx"},
                      "weight": 4, "cpu_cap": 1200, "wall_cap": 1800})
     return jobs
